@@ -66,8 +66,8 @@ def gen_case(rng, panics, maxlen=60):
     ops += ["b", "l", "P", "M", "C", "E", "I"]
     return "rd %s %s %d %s" % (hexs(data), evs, pre, ",".join(ops))
 
-def gen(rng, n, tier, panics=False, **kw):
-    return [gen_case(rng, panics) for _ in range(n)]
+def gen(rng, n, tier, panics=False, prefix="rd", **kw):
+    return [prefix + gen_case(rng, panics)[2:] for _ in range(n)]
 
 def category(case):
     t = case.split()
